@@ -70,6 +70,16 @@ def make_machine(kind, chunk):
         def workdir(self):
             return linux.Path(self, "/tmp")
 
+        @contextlib.contextmanager
+        def _init_shell(self):
+            # fault injection from outside tbot: the (complete) initialisation of the shell is followed by a failure
+            # while the context is still being entered — what `_init_shell()` raising looks like to its caller
+            with super()._init_shell():
+                if getattr(self, "_verif_fail_init", False):
+                    self._verif_fail_init = False
+                    raise InitFault("injected failure of the shell initialisation")
+                yield
+
     m = M()
     m._verif_io = holder
     return m
@@ -123,6 +133,10 @@ MARKERS = (Marker, MarkerB)
 _marker_rot = [0]
 
 
+class InitFault(Exception):
+    """injected: the initialisation of the shell a subshell block started fails"""
+
+
 class Broken(Exception):
     def __init__(self, tag):
         self.tag = tag
@@ -134,7 +148,12 @@ def parse_prog(toks):
         nodes = []
         while i < len(toks) and toks[i] != "]":
             t = toks[i]
-            if t in ("[", "[?"):
+            if t == "[x":
+                if i + 1 >= len(toks) or toks[i + 1] != "]":
+                    raise ValueError("[x takes no body")
+                nodes.append(("subfail",))
+                i += 2
+            elif t in ("[", "[?"):
                 body, j = seq(i + 1)
                 if j >= len(toks) or toks[j] != "]":
                     raise ValueError("unbalanced")
@@ -201,7 +220,11 @@ def run_op(tok, cx):
     try:
         if kind == "set":
             value = unhx(f[2]).decode("utf-8")
-            ret = m.env(unhx(f[1]).decode(), value)
+            arg = value
+            if value.startswith("/") and "\n" not in value and value == str(__import__("pathlib").PurePosixPath(value)) and len(value) % 2:
+                # the documented other form of the value: a Path of this machine (its path is what gets exported)
+                arg = linux.Path(m, value)
+            ret = m.env(unhx(f[1]).decode(), arg)
             val = "ok" if ret == value else "err:bad-return"
         elif kind == "get":
             val = "s:" + chars(m.env(unhx(f[1]).decode()))
@@ -256,6 +279,21 @@ def run_nodes(nodes, cx):
     for nd in nodes:
         if nd[0] == "op":
             run_op(nd[1], cx)
+        elif nd[0] == "subfail":
+            # a subshell block whose shell fails to initialise: the error reaches the caller, who handles it and goes
+            # on — the machine must be back in the shell it was in (nothing of it is an observation)
+            if cx.broken:
+                continue
+            cx.m._verif_fail_init = True
+            try:
+                with cx.m.subshell():
+                    cx.broken = True            # the body must not be reached
+            except InitFault:
+                pass
+            except Exception:
+                cx.broken = True
+            finally:
+                cx.m._verif_fail_init = False
         elif nd[0] == "raise":
             cx.rec("raise", "ok", False)
             _marker_rot[0] += 1
